@@ -122,7 +122,7 @@ theorem pedalEnd_table (E : List Ev) (firstOff lastOff r : Rat) (T : List Ev)
       have hc : ¬ max (pl.1 + 1) (lastOff + 1) < r := by
         have : lastOff + 1 ≤ max (pl.1 + 1) (lastOff + 1) := le_max_right _ _
         intro h; linarith
-      rw [pedalEnd_eq_walk _ _ r hs0]
+      rw [pedalEnd_eq_walk (min (p0.1 - 1) (firstOff - 1), false) _ r hs0]
       have hs := List.pairwise_cons.mp hE
       show walkEnd r false (p0 :: (flips (p0 :: E') ++ [_])) = _
       by_cases hp : p0.1 < r
@@ -218,5 +218,71 @@ theorem le_maxOf (x : Rat) (l : List Rat) (y : Rat) (hy : y = x ∨ y ∈ l) : y
   rcases hy with rfl | hy
   · exact foldl_max_ge_init _ _
   · exact foldl_max_ge_mem _ _ _ hy
+
+end C14P
+
+namespace C14P
+open Model Model.Pedal
+
+-- ------------------------------------------------------------------ the table is sorted (searchsorted's precondition)
+
+theorem flipsFrom_sublist (s : Bool) (E : List Ev) : (flipsFrom s E).Sublist E := by
+  induction E generalizing s with
+  | nil => exact List.Sublist.refl _
+  | cons b rest ih =>
+    unfold flipsFrom
+    split
+    · exact (ih b.2).cons b
+    · exact (ih b.2).cons_cons b
+
+theorem sorted_last_max (l : List Ev) (pl : Ev) (hs : SortedBy (·.1) l) (hl : l.getLast? = some pl) :
+    ∀ e ∈ l, e.1 ≤ pl.1 := by
+  obtain ⟨ys, rfl⟩ := List.getLast?_eq_some_iff.mp hl
+  intro e he
+  rcases List.mem_append.mp he with h | h
+  · exact (List.pairwise_append.mp hs).2.2 e h pl (List.mem_singleton.mpr rfl)
+  · rw [List.mem_singleton.mp h]
+
+/-- the times of the pedal change table are in ascending order -/
+theorem pedalTable_sorted (E : List Ev) (firstOff lastOff : Rat) (T : List Ev)
+    (hT : pedalTable E firstOff lastOff = some T) (hE : SortedBy (·.1) E) : SortedBy (·.1) T := by
+  unfold pedalTable at hT
+  cases E with
+  | nil => simp at hT
+  | cons p0 E' =>
+    cases hl : (p0 :: E').getLast? with
+    | none => simp [hl] at hT
+    | some pl =>
+      simp only [hl] at hT
+      have hT' := Option.some.inj hT
+      subst hT'
+      have hs := List.pairwise_cons.mp hE
+      have hmax := sorted_last_max (p0 :: E') pl hE hl
+      have hsub : (flips (p0 :: E')).Sublist E' := flipsFrom_sublist p0.2 E'
+      have hend : ∀ e ∈ p0 :: E', e.1 ≤ max (pl.1 + 1) (lastOff + 1) := by
+        intro e he
+        have h1 := hmax e he
+        have h2 : pl.1 + 1 ≤ max (pl.1 + 1) (lastOff + 1) := le_max_left _ _
+        linarith
+      have hs0 : min (p0.1 - 1) (firstOff - 1) ≤ p0.1 := le_trans (min_le_left _ _) (by linarith)
+      unfold SortedBy
+      refine List.pairwise_cons.mpr ⟨?_, List.pairwise_cons.mpr ⟨?_, ?_⟩⟩
+      · intro e he
+        rcases List.mem_cons.mp he with rfl | he
+        · exact hs0
+        · rcases List.mem_append.mp he with h | h
+          · exact le_trans hs0 (hs.1 e (hsub.subset h))
+          · rw [List.mem_singleton.mp h]
+            exact le_trans hs0 (hend p0 List.mem_cons_self)
+      · intro e he
+        rcases List.mem_append.mp he with h | h
+        · exact hs.1 e (hsub.subset h)
+        · rw [List.mem_singleton.mp h]
+          exact hend p0 List.mem_cons_self
+      · apply List.pairwise_append.mpr
+        refine ⟨hs.2.sublist hsub, List.pairwise_singleton _ _, ?_⟩
+        intro a ha b hb
+        rw [List.mem_singleton.mp hb]
+        exact hend a (List.mem_cons_of_mem _ (hsub.subset ha))
 
 end C14P
